@@ -819,6 +819,27 @@ class X86Model(object):
                             except NotConst as e:
                                 raise AnalysisError('x86allmncs.get_im_fmt is outside the evaluable subset: %s' % e)
             self._im_fmt = out
+            # the same questions asked of ONE instance, in two orders: an answer that depends on what was asked before is hidden state
+            hist = []
+            keys = sorted(out, key=str)
+            for order in (keys, list(reversed(keys))):
+                shared = class_obj(self.arch, 'x86allmncs')
+                for (se_, w8_, mode, kind) in order:
+                    modifs = dict((E[k], None) for k in ('w8', 'se', 'sw', 'sd', 'wd', 'mmx') if k in E)
+                    modifs[E['se']], modifs[E['w8']] = se_, w8_
+                    scope = dict((k, v) for k, v in E.items() if isinstance(v, (str, int, bool, list, tuple, dict)) or v is None)
+                    scope.update({'x86_afs': afs, 'struct': st})
+                    for fname_, fnode_ in self.arch.funcs.items():
+                        scope.setdefault(fname_, fnode_)
+                    try:
+                        r = tuple(Evaluator(scope).call_user(fn, [shared, modifs, mode, E[kind]]))
+                    except PyRaise as e:
+                        r = 'raises:%s' % e.exc_name
+                    except NotConst as e:
+                        raise AnalysisError('x86allmncs.get_im_fmt is outside the evaluable subset: %s' % e)
+                    if r != out[(se_, w8_, mode, kind)]:
+                        hist.append(((se_, w8_, mode, kind), out[(se_, w8_, mode, kind)], r))
+            self._im_fmt_history = hist
         return self._im_fmt
 
     def dis_rm_size(self, c, is_mem, opmode=None):
